@@ -121,6 +121,8 @@ class Interp:
         self.ghost = {}
         self.call_log = []
         self.entry_old = None
+        self.ghost_vals = {}
+        self.final_env = None
 
     # ---------------------------------------------------------- utilities
     def fresh_const(self, base, sort):
@@ -1062,6 +1064,18 @@ class Interp:
                 env2 = dict(env)
                 env2[name] = self.eval(node.args[1], env)
                 return self.eval(node.args[2], env2)
+            if self.spec and fn.id == "ghost":
+                name = node.args[0].value
+                if name not in self.ghost_vals:
+                    raise SpecError(f"ghost {name!r} was never bound on "
+                                    f"this path")
+                return self.ghost_vals[name]
+            if self.spec and fn.id == "final":
+                name = node.args[0].value
+                if self.final_env is None or name not in self.final_env:
+                    raise SpecError(f"final({name!r}): no such local at "
+                                    f"return")
+                return self.final_env[name]
             if fn.id == "super" and not node.args:
                 return SuperRef(env.get("self"), self.cls_stack_top())
         callee = self.eval(fn, env)
@@ -1291,6 +1305,11 @@ class Interp:
             self.old_env, self.result = old, res
             for e in con.ensures:
                 self.assume(bz(self.eval_spec(e, env, keep=True)))
+            if len(self.func_stack) == 1:
+                for gname, callees in self.contract.extra.get(
+                        "bind_call_results", {}).items():
+                    if con.func in callees:
+                        self.ghost_vals[gname] = res
             self.call_log.append({
                 "callee": con.func, "line": self.cur_line, "result": res,
                 "post": {p: self.snapshot({"v": self.lookup_path(
